@@ -3644,6 +3644,12 @@ class TLSConnection(TLSRecordLayer):
 
             key_exchange = None
 
+            if key_share and key_share.client_shares is None:
+                for result in self._sendError(
+                        AlertDescription.decode_error,
+                        "Empty key_share extension"):
+                    yield result
+
             if psk_modes:
                 if not psk_modes.modes:
                     for result in self._sendError(
@@ -4267,6 +4273,11 @@ class TLSConnection(TLSRecordLayer):
                                                   .missing_extension,
                                                   "Key share missing in "
                                                   "Client Hello"):
+                        yield result
+                if ext.client_shares is None:
+                    for result in self._sendError(AlertDescription
+                                                  .decode_error,
+                                                  "Empty key_share extension"):
                         yield result
 
                 # here we're assuming that the HRR was sent because of
